@@ -186,6 +186,22 @@ def clause_permissions(prog, rep):
                   "constructor %s can succeed without the secure pre-creation step" % f.name, f.loc())
     sidecars = set(s for f in prog.nontest_fns(SQ) for _, s in f.str_consts() if s in ("-wal", "-shm", "-journal"))
     rep.check(sidecars == {"-wal", "-shm", "-journal"}, "permissions", "sidecars", "WAL, SHM and journal sidecars are chmod-ed too", "sidecar suffixes handled: %s" % sorted(sidecars))
+    # and the path built from each suffix is what gets restricted (not merely mentioned)
+    chm = A.ReachCache(prog, lambda c: c.name == "set_permissions")
+    fed = False
+    for pth in sorted(perm_fns):
+        g = prog.fns[pth]
+        for c in g.live_calls():
+            if not chm.call(c):
+                continue
+            for a in c.args:
+                if "p" in a:
+                    _, calls, _ = g.depends_on(a["p"][0])
+                    names = set(x.name for x in calls)
+                    if "join" in names and ("next" in names or "into_iter" in names or "iter" in names):
+                        fed = True
+    rep.check(fed, "permissions", "sidecars/restricted", "the path joined from each sidecar suffix is handed to the chmod helper",
+              "the sidecar paths are built but never restricted: WAL / journal files keep default permissions")
 
 
 def clause_keyring(prog, rep):
